@@ -169,6 +169,8 @@ pub trait ExAsRef<T: core::marker::PointeeSized>: core::marker::PointeeSized {
     fn as_ref(&self) -> (r: &T)
         ensures as_ref_rel(self, r);
 }
+pub assume_specification<T>[ std::option::Option::<std::option::Option<T>>::flatten ](o: Option<Option<T>>) -> (r: Option<T>)
+    ensures r == (match o { Some(Some(x)) => Some(x), _ => None::<T> });
 pub assume_specification<T: Default>[ core::mem::take::<T> ](dest: &mut T) -> (r: T)
     ensures r == *old(dest), call_ensures(T::default, (), *final(dest));
 pub assume_specification<T>[ <[T]>::reverse ](s: &mut [T])
